@@ -154,10 +154,55 @@ fn matrix_dd(sm: &mut Summary, seed: u64) {
     }
 }
 
+/// decompose_for_tropical with a scalar of f64 precision and unbounded exponent (harness xf.rs): for a matrix scaled by 2^k the
+/// outcome is the one of the unscaled f64 call and every returned number is the f64 result scaled by the corresponding power
+/// of two, bit for bit (scaling by powers of two commutes with IEEE +, -, *, /, sqrt).  C15 for SPD matrices whose determinant
+/// lies outside the f64 range; a detour through f64 inside the routine shows as 0, inf or a wrong outcome.
+fn matrix_xf(sm: &mut Summary, seed: u64) {
+    use crate::xf::Xf;
+    use momtrop::matrix::{MatrixError, SquareMatrix};
+    use std::panic::{catch_unwind, AssertUnwindSafe};
+    let mut rng = rng_for(seed ^ 0xf00, 13);
+    for it in 0..160usize {
+        let n = 1 + it % 8;
+        let (mf, kind) = crate::checks::matrix::gen_matrix(&mut rng, [0usize, 3, 2, 1, 0, 3, 4, 5][it % 8], n);
+        if !mf.iter().flatten().all(|v| v.is_finite()) { continue; }
+        let tol = [None, Some(1e-9), Some(1e-13), None][it % 4];
+        let reference = crate::checks::matrix::decompose(&mf, tol);
+        for &k in &[-400i64, 400, -60, 1000] {
+            let mut a = SquareMatrix::new_zeros_from_num(&Xf::ONE, n);
+            for i in 0..n { for j in 0..n { a[(i, j)] = Xf::scaled(mf[i][j], k); } }
+            let st = Settings::new(tol, false, false).to_momtrop();
+            let r = catch_unwind(AssertUnwindSafe(|| a.decompose_for_tropical(&st)));
+            sm.evaluations += 1;
+            sm.count("xf_matrices");
+            let inst = json!({"dd": true, "matrix": {"xf": true, "kind": kind, "n": n, "k": k, "tol": tol.map(hexf), "m": mf.iter().map(|r| r.iter().map(|v| hexf(*v)).collect::<Vec<_>>()).collect::<Vec<_>>()}, "line": {}});
+            let name = match &r { Ok(Ok(_)) => "Ok", Ok(Err(MatrixError::ZeroDet)) => "ZeroDet", Ok(Err(MatrixError::Unstable)) => "Unstable", Err(_) => "Panic" };
+            let mut bad: Option<String> = None;
+            if name != reference.name() {
+                bad = Some(format!("outcome {} for the matrix scaled by 2^{}, the unscaled f64 call gives {}", name, k, reference.name()));
+            } else if let (Ok(Ok(x)), crate::checks::matrix::DecOut::Ok(f)) = (&r, &reference) {
+                let same = |a: Xf, b: f64, kk: i64| { let w = Xf::scaled(b, kk); (a.m.is_nan() && w.m.is_nan()) || a == w };
+                'cmp: for i in 0..n { for j in 0..n {
+                    if !same(x.q_transposed[(i, j)], f.q_transposed[(i, j)], k / 2) { bad = Some(format!("q_transposed[{}][{}] is not the f64 result scaled by 2^{}", i, j, k / 2)); break 'cmp; }
+                    if !same(x.q_transposed_inverse[(i, j)], f.q_transposed_inverse[(i, j)], -k / 2) { bad = Some(format!("q_transposed_inverse[{}][{}] is not the f64 result scaled by 2^{}", i, j, -k / 2)); break 'cmp; }
+                    if !same(x.inverse[(i, j)], f.inverse[(i, j)], -k) { bad = Some(format!("inverse[{}][{}] is not the f64 result scaled by 2^{}", i, j, -k)); break 'cmp; }
+                } }
+                if bad.is_none() && !same(x.determinant, f.determinant, k * n as i64) { bad = Some(format!("determinant is not the f64 result scaled by 2^{}", k * n as i64)); }
+            }
+            if let Some(b) = bad {
+                sm.violation("C15", format!("[wide-range scalar] decompose_for_tropical ({} matrix, dimension {}): {}", kind, n, b), inst.clone(), json!({}));
+                sm.violation("C19", format!("[wide-range scalar] the range of the user's type is not preserved in decompose_for_tropical: {}", b), inst, json!({}));
+            }
+        }
+    }
+}
+
 pub fn run(lines: &[Value], seed: u64, base_idx: u64, points: usize) -> Summary {
     let mut sm = Summary::default();
     gamma_dd(&mut sm, seed);
     matrix_dd(&mut sm, seed);
+    matrix_xf(&mut sm, seed);
     for (li, inst) in lines.iter().enumerate() {
         let idx = li as u64 + base_idx;
         let line = Line::parse(inst);
